@@ -35,6 +35,23 @@ func (h *capHTTP) Do(req *http.Request) (*http.Response, error) {
 	return &http.Response{StatusCode: 207, Status: "207 Multi-Status", Header: hd, Body: io.NopCloser(strings.NewReader(`<multistatus xmlns="DAV:"/>`)), Request: req}, nil
 }
 
+// emptyTexts: an element without character data denotes the empty text; where a token of the concretisation stands for the
+// empty text, text-match elements without content get that token (the abstract documents always carry a text node)
+func emptyTexts(n xmlt.Node, c *xmlt.Conc) xmlt.Node {
+	tok, ok := c.Rev[""]
+	if !ok {
+		return n
+	}
+	if n.Name == "text-match" && len(n.Kids) == 0 {
+		n.Kids = []xmlt.Node{xmlt.Txt(tok)}
+		return n
+	}
+	for i := range n.Kids {
+		n.Kids[i] = emptyTexts(n.Kids[i], c)
+	}
+	return n
+}
+
 // hrefTexts reads the DAV:href children of a captured request body (lexically, independent of the library)
 func hrefTexts(body []byte) []string {
 	out := []string{}
@@ -121,6 +138,8 @@ func mustJSON(b []byte, v interface{}) {
 var concs = map[string]map[string]string{
 	"plain": {"t0": "alpha", "t1": "beta", "t2": "gamma", "n1": "EMAIL", "n2": "X-FOO", "n3": "TYPE"},
 	"meta":  {"t0": "  lead&trail <x>  ", "t1": "plain", "t2": "é\"q'\t]]>", "n1": "EMAIL", "n2": "X-FOO&<", "n3": "TY PE"},
+	// the empty text; VERSION / FN among the requested names (a vCard's mandatory properties are requested like any other)
+	"empty": {"t0": "", "t1": "x", "t2": " y ", "n1": "VERSION", "n2": "FN", "n3": "TYPE"},
 	"odd":   {"t0": " ", "t1": "a\rb\r\nc\n", "t2": "<![CDATA[x]]>", "n1": "n", "n2": "N", "n3": "ünï"}, // t1: line ends of every kind (a reader normalises unescaped CR)
 }
 
